@@ -127,21 +127,28 @@ def gen_case(rng, contract_scripts):
         k = rng.weighted([("sub", 5), ("unsub", 3), ("rel", 12), ("contracts", 2), ("dump", 2), ("h160", 1)])
         if k == "sub":
             ds = []
-            for _i in range(rng.range(1, 2)):
+            for _i in range(rng.weighted([(1, 5), (2, 3), (3, 1)])):
                 d = rng.choice(datas)
                 ds.append(key(d) if rng.chance(1, 2) else list(d))
                 key(d)
             ops.append(["subscribe", ds])
             subscribed += ds
         elif k == "unsub":
-            if subscribed and rng.chance(3, 4):
-                d = rng.choice(subscribed)
-                d2 = key(d) if rng.chance(1, 2) else d
-                ops.append(["unsubscribe", [d2]])
-            else:
-                d = rng.choice(datas)
-                key(d)
-                ops.append(["unsubscribe", [list(d)]])
+            # batches: a value named once, several values, the same value named twice (raw + its hash, or
+            # twice raw) - possibly more often than it is subscribed -, values never subscribed
+            batch = []
+            for _i in range(rng.weighted([(1, 5), (2, 4), (3, 2)])):
+                if subscribed and rng.chance(3, 4):
+                    d = rng.choice(subscribed)
+                    batch.append(key(d) if rng.chance(1, 2) else list(d))
+                else:
+                    d = rng.choice(datas)
+                    key(d)
+                    batch.append(list(d))
+                if batch and rng.chance(1, 4):
+                    d = batch[-1]
+                    batch.append(key(d) if rng.chance(1, 2) else list(d))
+            ops.append(["unsubscribe", batch])
         elif k == "rel":
             outs = [rand_script() for _ in range(rng.range(0, 3))]
             ins = [rand_script() for _ in range(rng.range(0, 2))]
@@ -202,10 +209,12 @@ def suites(tier, rng, replay):
     ctbl_coq = zll(cf)
     for c in cases:
         c["coq_ops"] = [coq_op(o) for o in c["ops"]]
-    pre = ["From V.model Require Import Script.",
+    pre = ["From V.model Require Import Script ScriptSpec.",
            "Definition htbl : list (bytes * bytes) := %s." % htbl_coq,
            "Definition ctbl : list bytes := %s." % ctbl_coq]
-    groups.append({"key": "filter", "cases": cases, "model": "cmp_run (run htbl ctbl)", "monitors": {}})
+    groups.append({"key": "filter", "cases": cases, "model": "cmp_run (run htbl ctbl)",
+                   "monitors": {"c08": "c08_monitor htbl ctbl",
+                                "hyp_keys": "fun ops _ => if keys20 htbl ops then None else Some (0, [900])"}})
     return [Suite("filter", "filter", pre, groups)]
 
 
@@ -213,7 +222,8 @@ def keyfn(rec):
     ops = rec.get("ops", [])
     step = rec.get("step", 0)
     opn = ops[step][0] if 0 <= step < len(ops) else "?"
-    return "filter:%s:%s" % (rec.get("checker"), opn)
+    code = (rec.get("expected") or [0])[0] if rec.get("checker") != "model" else 0
+    return "filter:%s:%s:%s" % (rec.get("checker"), code, opn)
 
 
 SPEC = {
